@@ -387,7 +387,20 @@ def rp_check(repo, res, fn_q, enum, accepted, flows, rule="RP"):
                     continue
                 v = node["path"].split("::")[-1]
                 if v not in vs:
-                    continue  # constructing a different variant: FF's business
+                    # constructing a different variant is FF's business -- except when the new node is given the matched node's own
+                    # children: then the pass has changed the operator above them (`a || b` rebuilt as `a | b`), and every later pass
+                    # treats the sub-trees by the wrong rule.  KIND: a rebuilding arm keeps the variant of the node it rebuilds.
+                    envk = envs.get(id(node))
+                    for fi in node["fields"]:
+                        if fi["name"] not in set(child_fields(repo, enum, v)):
+                            continue
+                        pk = A.resolve(fi["expr"], envk)
+                        for mv in sorted(vs):
+                            mcf = set(child_fields(repo, enum, mv))
+                            if mcf and any(has_root(pk, mv, o) for o in mcf):
+                                n += 1
+                                res.bad(rule, f"{rule}:{fn_q}:{mv}:KIND", f"the arm for {enum}::{mv} builds an {enum}::{v} over the matched node's children ({A.show(pk)[:120]}): the operator changes while its operands stay", f"{fn.file}:{node['l']}")
+                    continue
                 env = envs.get(id(node))
                 cf = set(child_fields(repo, enum, v))
                 for fi in node["fields"]:
@@ -399,6 +412,21 @@ def rp_check(repo, res, fn_q, enum, accepted, flows, rule="RP"):
                     if (v, fname) in flows:
                         want, pred = flows[(v, fname)]
                         res.check(pred(p), rule, key, f"tabled flow `{want}`; found {A.show(p)}", loc)
+                        # FILL: a pass that puts a value of its own into an Option field fills an empty slot; it must not replace what
+                        # the node already says.  The arm is therefore restricted to nodes whose field is None (pattern or guard).
+                        fty = next((str(f.get("ty", "")) for vv in (repo.enum(enum) or {}).get("variants", []) if vv["name"] == v for f in vv.get("fields", []) if str(f.get("name")) == fname), "")
+                        if re.match(r"^\s*Option\s*<", fty):
+                            none_pat = False
+                            for y in A.walk(arm["pat"]):
+                                if y.get("k") == "PStruct" and str(y.get("path", "")).split("::")[-1] == v:
+                                    for pf in y["fields"]:
+                                        if str(pf["name"]) == fname and pf["pat"].get("k") in ("PPath", "PIdent", "Path") and str(pf["pat"].get("path", pf["pat"].get("name", ""))).split("::")[-1] == "None":
+                                            none_pat = True
+                            g = arm.get("guard")
+                            gtxt = "".join(repo.text(fn.file, g).split()) if g is not None else ""
+                            fbinds = [nm for y in A.walk(arm["pat"]) if y.get("k") == "PStruct" and str(y.get("path", "")).split("::")[-1] == v for pf in y["fields"] if str(pf["name"]) == fname for nm, _ in A.pat_bindings(pf["pat"])]
+                            none_guard = any(re.search(rf"\b{re.escape(nm)}\.is_none\(\)|\b{re.escape(nm)}==None", gtxt) for nm in fbinds)
+                            res.check(none_pat or none_guard, rule, key + ":FILL", f"{enum}::{v}.{fname}: {fty} is filled from `{want}`" + (" only where the matched node has none" if (none_pat or none_guard) else ": the arm also matches nodes that already have a value there, which the pass then replaces (the node's own value is lost, and the value the pass carries is spent on it)"), loc)
                         continue
                     if fname in cf:
                         ok = has_root(p, v, fname) and not any(has_root(p, v, o) for o in cf if o != fname)
